@@ -474,8 +474,8 @@ pub fn run(ctx: &Ctx) -> i32 {
     rep.assumptions.push("root problems with union requirements are not expressible through from_provider's seeds and are skipped".into());
     let no_fav = |d: &Deco| !matches!(d, Deco::Favor(_) | Deco::Lock(_) | Deco::Soft(_) | Deco::Hint(..) | Deco::AddUnion(Src::Root, _));
     let base: Vec<(Box<dyn Family>, u64)> = vec![
-        (Box::new(Decorated::new("F3 skeletons", skeletons(), if q { 1 } else { 2 }, false, &no_fav)), if q { 3 } else { 7 }),
-        (Box::new(Grid::f1().with_root(RootMenu::AnyVersion)), if q { 64 } else { 4 }),
+        (Box::new(Decorated::new("F3 skeletons", skeletons(), if q { 1 } else { 2 }, false, &no_fav)), if q { 3 } else { 29 }),
+        (Box::new(Grid::f1().with_root(RootMenu::AnyVersion)), if q { 64 } else { 16 }),
         // several exclusions / Unknown answers at once (they share one interned reason string)
         (
             Box::new(Decorated::new("F3 skeletons x exclusion / unknown decorations", skeletons(), 2, false, &|d| matches!(d, Deco::Exclude(..) | Deco::Unknown(_)))),
